@@ -99,29 +99,49 @@ SPECS["Question::deserialise"] = {"props": ["C03", "C04"], "contract": """    re
         r is Err ==> err_id(r->Err_0) == Some(id), // [C03:error_carries_id]
         r is Ok <==> question_at(old(buffer).octets@, old(buffer).position as int) is Some, // [C03:accepts_exactly_the_well_formed_questions]
         r is Ok ==> question_is(r->Ok_0, old(buffer).octets@, old(buffer).position as int) && final(buffer).position == question_at(old(buffer).octets@, old(buffer).position as int)->Some_0, // [C03:question_read_as_an_independent_decoder_does]"""}
-SPECS["ResourceRecord::deserialise"] = {"props": ["C03", "C04"], "rewrites": [("R6", r6_inline_closure)], "attrs": "#[verifier::rlimit(60)] // 20 match arms, 3-4 s of SMT time", "contract": """    requires old(buffer).wf(),
+SPECS["ResourceRecord::deserialise"] = {"props": ["C03", "C04"], "rewrites": [("R6", r6_inline_closure)], "attrs": "#[verifier::rlimit(400)] // 20 match arms with about 40 error exits",
+    "anchors": [{"after": "let rdata_start = buffer.position;", "proof": """let ghost b__ = buffer.octets@; let ghost p0__ = old(buffer).position as int; let ghost rdl__ = rdlength as int;
+proof {
+    assert(rr_prefix_at(b__, p0__) == Some(rdata_start as int));
+    let e = rdata_start as int - 10;
+    assert(name_at(b__, p0__)->Some_0.1 == e);
+    assert(rtype == spec_rtype_from(be16(b__[e], b__[e + 1])));
+    assert(rdl__ == be16(b__[e + 8], b__[e + 9]) as int);
+    assert(rr_at(b__, p0__) == (match rdata_end(rtype, b__, rdata_start as int, rdl__) { Some(x) => if x == rdata_start as int + rdl__ { Some(x) } else { None::<int> }, None => None::<int> }));
+}"""}], "contract": """    requires old(buffer).wf(),
     ensures """ + BUF_FRAME + """
         r is Ok ==> r->Ok_0.name.wf(), // [C03,C16:decoded_name_wf]
         r is Ok ==> rr_names_wf(r->Ok_0.rtype_with_data), // [C03,C16:decoded_rdata_names_wf]
         r is Err ==> err_id(r->Err_0) == Some(id), // [C03:error_carries_id]
         r is Ok ==> rr_prefix_at(old(buffer).octets@, old(buffer).position as int) is Some, // [C03:record_header_present]
         r is Ok ==> rr_header_is(r->Ok_0, old(buffer).octets@, old(buffer).position as int), // [C03:record_header_read_as_an_independent_decoder_does]
-        r is Ok ==> final(buffer).position == rr_end(old(buffer).octets@, old(buffer).position as int), // [C03:rdlength_equals_the_rdata_consumed]"""}
+        r is Ok ==> final(buffer).position == rr_end(old(buffer).octets@, old(buffer).position as int), // [C03:rdlength_equals_the_rdata_consumed]
+        r is Ok <==> rr_at(old(buffer).octets@, old(buffer).position as int) is Some, // [C03:accepts_exactly_the_well_formed_records]
+        r is Ok ==> final(buffer).position == rr_at(old(buffer).octets@, old(buffer).position as int)->Some_0, // [C03:record_ends_where_the_independent_reading_ends]""",
+    "entry": "reveal(rr_at);"}
 SPECS["Message::deserialise"] = {"props": ["C03", "C04"], "contract": """    requires old(buffer).wf(), old(buffer).position == 0,
     ensures """ + BUF_FRAME + """
         r is Ok ==> old(buffer).octets@.len() >= 12 && msg_counts_ok(r->Ok_0, old(buffer).octets@), // [C03:section_lengths_equal_header_counts]
         r is Ok ==> r->Ok_0.header == header_unpack(be16(old(buffer).octets@[0], old(buffer).octets@[1]), old(buffer).octets@[2], old(buffer).octets@[3]), // [C03,C04:header_flags_read_as_rfc1035]
         r is Err && old(buffer).octets@.len() >= 2 ==> err_id(r->Err_0) == Some(be16(old(buffer).octets@[0], old(buffer).octets@[1])), // [C03:error_carries_id]
-        r is Err && old(buffer).octets@.len() < 2 ==> err_id(r->Err_0) is None,""",
+        r is Err && old(buffer).octets@.len() < 2 ==> err_id(r->Err_0) is None,
+        r is Ok <==> msg_end(old(buffer).octets@) is Some, // [C03:accepts_exactly_the_well_formed_messages]""",
     "loops": {str(k): {"kw": "for", "iter_name": "it__", "spec": f"""            invariant buffer.wf(), buffer.octets == old(buffer).octets, buffer.position >= old(buffer).position,
-                {v}@.len() == it__.index@, buffer.octets@.len() >= 12, header.id == be16(buffer.octets@[0], buffer.octets@[1]),"""}
-              for k, (v, c) in enumerate((("questions", "qdcount"), ("answers", "ancount"), ("authority", "nscount"), ("additional", "arcount")))}}
+                {v}@.len() == it__.index@, buffer.octets@.len() >= 12, header.id == be16(buffer.octets@[0], buffer.octets@[1]),
+                it__.index@ <= {c}, // the part of the message still to be read decides whether the whole is well-formed
+                msg_end(buffer.octets@) == {m},"""}
+              for k, (v, c, m) in enumerate((
+                  ("questions", "qdcount", "then_rrs(buffer.octets@, then_rrs(buffer.octets@, then_rrs(buffer.octets@, questions_end(buffer.octets@, buffer.position as int, (qdcount - it__.index@) as nat), ancount as nat), nscount as nat), arcount as nat)"),
+                  ("answers", "ancount", "then_rrs(buffer.octets@, then_rrs(buffer.octets@, rrs_end(buffer.octets@, buffer.position as int, (ancount - it__.index@) as nat), nscount as nat), arcount as nat)"),
+                  ("authority", "nscount", "then_rrs(buffer.octets@, rrs_end(buffer.octets@, buffer.position as int, (nscount - it__.index@) as nat), arcount as nat)"),
+                  ("additional", "arcount", "rrs_end(buffer.octets@, buffer.position as int, (arcount - it__.index@) as nat)")))}}
 SPECS["Message::from_octets"] = {"props": ["C03"], "contract": """    requires octets@.len() <= 0xffff,
     ensures
         r is Ok ==> octets@.len() >= 12 && msg_counts_ok(r->Ok_0, octets@), // [C03:section_lengths_equal_header_counts]
         r is Ok ==> r->Ok_0.header == header_unpack(be16(octets@[0], octets@[1]), octets@[2], octets@[3]), // [C03,C04:header_flags_read_as_rfc1035]
         r is Err && octets@.len() >= 2 ==> err_id(r->Err_0) == Some(be16(octets@[0], octets@[1])), // [C03:error_carries_id]
-        r is Err && octets@.len() < 2 ==> err_id(r->Err_0) is None, // [C03:no_id_only_below_two_bytes]"""}
+        r is Err && octets@.len() < 2 ==> err_id(r->Err_0) is None, // [C03:no_id_only_below_two_bytes]
+        r is Ok <==> msg_end(octets@) is Some, // [C03:accepts_exactly_the_well_formed_messages]"""}
 
 SPEC_RS = """
 impl<'a> ConsumableBuffer<'a> {
@@ -231,6 +251,60 @@ pub open spec fn rr_header_is(rr: ResourceRecord, b: Seq<u8>, pos: int) -> bool 
 pub open spec fn rr_end(b: Seq<u8>, pos: int) -> int {
     let e = name_at(b, pos)->Some_0.1;
     e + 10 + be16(b[e + 8], b[e + 9])
+}
+// RDATA per record type (RFC 1035 3.3 / 3.4.1, RFC 3596 AAAA, RFC 2782 SRV): the offset just after it when it is well-formed.
+// For the types whose RDATA the server does not interpret (NULL, WKS, HINFO, TXT, unknown types) it is RDLENGTH opaque octets.
+pub open spec fn name_end(b: Seq<u8>, p: int) -> Option<int> { match name_at(b, p) { Some(t) => Some(t.1), None => None } }
+pub open spec fn fixed_end(b: Seq<u8>, p: int, n: int) -> Option<int> { if p + n <= b.len() { Some(p + n) } else { None } }
+pub open spec fn then_name(b: Seq<u8>, o: Option<int>) -> Option<int> { match o { Some(p) => name_end(b, p), None => None } }
+pub open spec fn then_fixed(b: Seq<u8>, o: Option<int>, n: int) -> Option<int> { match o { Some(p) => fixed_end(b, p, n), None => None } }
+pub open spec fn rdata_end(t: RecordType, b: Seq<u8>, p: int, rdlength: int) -> Option<int> {
+    match t {
+        RecordType::A => fixed_end(b, p, 4),
+        RecordType::NS => name_end(b, p),
+        RecordType::MD => name_end(b, p),
+        RecordType::MF => name_end(b, p),
+        RecordType::CNAME => name_end(b, p),
+        RecordType::SOA => then_fixed(b, then_name(b, name_end(b, p)), 20),
+        RecordType::MB => name_end(b, p),
+        RecordType::MG => name_end(b, p),
+        RecordType::MR => name_end(b, p),
+        RecordType::NULL => fixed_end(b, p, rdlength),
+        RecordType::WKS => fixed_end(b, p, rdlength),
+        RecordType::PTR => name_end(b, p),
+        RecordType::HINFO => fixed_end(b, p, rdlength),
+        RecordType::MINFO => then_name(b, name_end(b, p)),
+        RecordType::MX => then_name(b, fixed_end(b, p, 2)),
+        RecordType::TXT => fixed_end(b, p, rdlength),
+        RecordType::AAAA => fixed_end(b, p, 16),
+        RecordType::SRV => then_name(b, fixed_end(b, p, 6)),
+        RecordType::Unknown(_) => fixed_end(b, p, rdlength),
+    }
+}
+// a whole resource record: the offset just after it, when it is well-formed (RDLENGTH equal to the RDATA its type prescribes)
+#[verifier::opaque]
+pub open spec fn rr_at(b: Seq<u8>, pos: int) -> Option<int> {
+    match rr_prefix_at(b, pos) {
+        None => None,
+        Some(p) => {
+            let e = p - 10;
+            let rdl = be16(b[e + 8], b[e + 9]) as int;
+            match rdata_end(spec_rtype_from(be16(b[e], b[e + 1])), b, p, rdl) { Some(x) => if x == p + rdl { Some(x) } else { None }, None => None }
+        }
+    }
+}
+pub open spec fn questions_end(b: Seq<u8>, p: int, n: nat) -> Option<int>
+    decreases n
+{ if n == 0 { Some(p) } else { match question_at(b, p) { None => None, Some(q) => questions_end(b, q, (n - 1) as nat) } } }
+pub open spec fn rrs_end(b: Seq<u8>, p: int, n: nat) -> Option<int>
+    decreases n
+{ if n == 0 { Some(p) } else { match rr_at(b, p) { None => None, Some(q) => rrs_end(b, q, (n - 1) as nat) } } }
+pub open spec fn then_rrs(b: Seq<u8>, o: Option<int>, n: nat) -> Option<int> { match o { Some(p) => rrs_end(b, p, n), None => None } }
+// a well-formed message: 12 header octets, then exactly as many questions and records per section as the header says (trailing octets are ignored)
+pub open spec fn msg_end(b: Seq<u8>) -> Option<int> {
+    if b.len() < 12 { None } else {
+        then_rrs(b, then_rrs(b, then_rrs(b, questions_end(b, 12, be16(b[4], b[5]) as nat), be16(b[6], b[7]) as nat), be16(b[8], b[9]) as nat), be16(b[10], b[11]) as nat)
+    }
 }
 pub open spec fn msg_counts_ok(m: Message, o: Seq<u8>) -> bool {
     &&& o.len() >= 12
